@@ -5,17 +5,23 @@ Driver for C12 (whitelist schedules). One output line per input line.
 
 * `case v=<0 plain|1 flex|2 merkle> now=<ns> …`                          → `case`
 * `t <ns>`                                                              set the block time
-* `inst sender=<a> start=<ns> end=<ns> limit=<n> pal=<n> members=<a,…|-> counts=<n,…|-> whale=<n|->
-        admins=<a,…|-> mut=<0|1> funds=<d:a,…|-> root=<0|1> uri=<0|1>`   instantiate (replaces the observed contract on success)
+* `inst sender=<a> start=<ns> end=<ns> pal=<n> admins=<a,…|-> mut=<0|1> … envok=<0|1>`
+        instantiate (replaces the observed contract on success). `envok` = witness: the same message with a canonical
+        valid schedule instantiates (all non-schedule checks pass). Other fields of the line (limit, members, funds,
+        root/uri kinds, …) are the environment's and are ignored here.
 * `start sender=<a> t=<ns>` / `end sender=<a> t=<ns>`                    UpdateStartTime / UpdateEndTime
 * `remove sender=<a> members=<…> present=<0|1>`                          RemoveMembers (`present` = environment witness)
-* `pal sender=<a> n=<n>`                                                 UpdatePerAddressLimit
+* `pal sender=<a> n=<n> res=<0|1>`                                       UpdatePerAddressLimit (outcome = environment)
 * `admins sender=<a> list=<a,…|->` / `freeze sender=<a>`                 UpdateAdmins / Freeze
-* `add … res=<0|1>` / `inclimit … res=<0|1>`                             AddMembers / IncreaseMemberLimit (outcome = environment)
+* `add … res=` / `inclimit … res=` / `x name=<variant> … res=` / `migrate … res=`
+        AddMembers / IncreaseMemberLimit / any other ExecuteMsg variant (raw JSON) / migrate: outcome = environment;
+        the schedule must not move
 * `can a=<a>`                                                            CanExecute query
 
 Answer: `<ok|err> <obs>` with `obs` = `none` before a successful instantiate, otherwise
-`now= s= e= pal=<n|-> act= st= en= cact= adm=<a,…|-> mut=`; `can` answers `ok can=<0|1>`.
+`now= s= e= act= st= en= cact= adm=<sorted set|-> mut= ## pal=<n|->`. Only the part before ` ## ` is the property's
+projection (schedule, clock, the four activity flags, and the admin set that gates the schedule updates); the part
+after it is compared as DRIFT only. `can` answers `ok ## can=<0|1>`.
 -/
 open LP LP.Proto LP.WlSchedule
 
@@ -26,12 +32,19 @@ structure D where
 
 def b2s (b : Bool) : String := if b then "1" else "0"
 
+def insertNat (x : Nat) : List Nat → List Nat
+  | [] => [x]
+  | y :: ys => if x < y then x :: y :: ys else if x = y then y :: ys else y :: insertNat x ys
+
+/-- the admin list as a set (`is_admin` only asks for membership) -/
+def sortDedup (l : List Nat) : List Nat := l.foldr insertNat []
+
 def obs (d : D) : String :=
   match d.st with
   | none => "none"
   | some s =>
     let pal := if d.v = .flex then "-" else toString s.perAddr
-    s!"now={s.now} s={s.start} e={s.end_} pal={pal} act={b2s (isActive s)} st={b2s (hasStarted s)} en={b2s (hasEnded s)} cact={b2s (configIsActive s)} adm={renderNats s.admins} mut={b2s s.adminsMutable}"
+    s!"now={s.now} s={s.start} e={s.end_} act={b2s (isActive s)} st={b2s (hasStarted s)} en={b2s (hasEnded s)} cact={b2s (configIsActive s)} adm={renderNats (sortDedup s.admins)} mut={b2s s.adminsMutable} ## pal={pal}"
 
 def variantOf (n : Nat) : Variant := if n = 1 then .flex else if n = 2 then .merkle else .plain
 
@@ -40,26 +53,21 @@ def parseOp (ws : List String) : Option Op :=
   | some "start" => do let a ← natKv ws "sender"; let t ← natKv ws "t"; pure (.updateStart a t)
   | some "end" => do let a ← natKv ws "sender"; let t ← natKv ws "t"; pure (.updateEnd a t)
   | some "remove" => do let a ← natKv ws "sender"; let p ← boolKv ws "present"; pure (.removeMembers a p)
-  | some "pal" => do let a ← natKv ws "sender"; let n ← natKv ws "n"; pure (.updatePerAddr a n)
+  | some "pal" => do let n ← natKv ws "n"; let r ← boolKv ws "res"; pure (.updatePerAddr n r)
   | some "admins" => do let a ← natKv ws "sender"; let l ← natListKv ws "list"; pure (.updateAdmins a l)
   | some "freeze" => do let a ← natKv ws "sender"; pure (.freeze a)
   | some "add" => do let r ← boolKv ws "res"; pure (.env r)
   | some "inclimit" => do let r ← boolKv ws "res"; pure (.env r)
+  | some "x" => do let r ← boolKv ws "res"; pure (.env r)
+  | some "migrate" => do let r ← boolKv ws "res"; pure (.env r)
   | _ => none
 
-def parseInst (ws : List String) : Option (List Coin × InstMsg) := do
+def parseInst (ws : List String) : Option (Bool × InstMsg) := do
   let start ← natKv ws "start"; let end_ ← natKv ws "end"
-  let limit ← natKv ws "limit"; let pal ← natKv ws "pal"
-  let members ← natListKv ws "members"; let counts ← natListKv ws "counts"
-  let whale ← optNatKv ws "whale"
+  let pal ← natKv ws "pal"
   let admins ← natListKv ws "admins"; let mut_ ← boolKv ws "mut"
-  let funds ← pairListKv ws "funds"
-  let root ← boolKv ws "root"; let uri ← boolKv ws "uri"
-  -- a member without a listed count gets count 1 (the harness does the same)
-  let ms := members.zipIdx.map fun (a, i) => (a, counts.getD i 1)
-  pure (funds.map (fun (d, a) => ⟨d, a⟩),
-        { start := start, end_ := end_, memberLimit := limit, perAddr := pal, members := ms, whaleCap := whale,
-          admins := admins, adminsMutable := mut_, rootOk := root, uriOk := uri })
+  let envok ← boolKv ws "envok"
+  pure (envok, { start := start, end_ := end_, perAddr := pal, admins := admins, adminsMutable := mut_ })
 
 def c12Step (d : D) (line : String) : D × String :=
   let ws := words line
@@ -76,13 +84,13 @@ def c12Step (d : D) (line : String) : D × String :=
   | some "inst" =>
     match parseInst ws with
     | none => (d, "bad-op")
-    | some (funds, m) =>
-      match instantiate d.v d.now funds m with
+    | some (envOk, m) =>
+      match instantiate d.v d.now envOk m with
       | .ok s => let d' := { d with st := some s }; (d', s!"ok {obs d'}")
       | .error _ => (d, s!"err {obs d}")
   | some "can" =>
     match d.st, natKv ws "a" with
-    | some s, some a => (d, s!"ok can={b2s (isAdmin s a)}")
+    | some s, some a => (d, s!"ok ## can={b2s (isAdmin s a)}")
     | _, _ => (d, "err none")
   | _ =>
     match parseOp ws with
